@@ -319,13 +319,12 @@ def r3(ctx):
         e = {}
         why = show_in(b, t)[:160]
         ok = False
-        universe = lambda u: range_bounds(u) is not None and range_bounds(u)[0] == 0 and match(range_bounds(u)[1], ('field', isres, cnt)) if not isinstance(range_bounds(u)[1] if range_bounds(u) else 0, int) else False
         if match(t, Call('Iterator::collect', Call('HashSet::difference', Cap('all'), Cap('matched'))), e):
             al = core(init_value(b, e['all']))
             ok = match(al, Call('from_iter', ('agg', 'adt', Pred(lambda n: n.endswith('Range::Range')), (Const(0), ('field', isres, cnt)))))
             why = 'all = %s' % show_in(b, al)
             if ok:
-                ok = is_projection_set(ctx, b, init_value(b, peel(raw)[2][0][2][1]) if False else _matched_raw(b, raw), MATCHES, comp)
+                ok = is_projection_set(ctx, b, _matched_raw(b, raw), MATCHES, comp)
                 why = 'the matched set is not component %d of the matches' % comp
         else:
             # (0..n).filter(|i| !matched.contains(i)).collect()
